@@ -32,7 +32,6 @@ HOOKS = {
 }
 
 NOT_APPLICABLE = {
-    "C10": "purely a statement about interleavings of two requests on one shared SessionContext; sequentially it is trivial, Kani has no threads and Verus would need the engine rewritten with its permission types (a model, not the code) — no contract on the real text can decide it (DESIGN.md §9)",
 }
 
 NOTES = "Exit codes: 0 all obligations discharged; 1 VIOLATION (a named obligation failed); 2 UNDECIDED (lost anchor / unsupported construct / solver limit — never reported as a violation)."
@@ -256,16 +255,48 @@ PROPS["C04"] = {
 
 PROPS["C11"] = {
     "level": "other",
-    "technique": "Verus call-site frame obligations on the extracted QueryEngine entry points that take user SQL (plan_read_only_sql, execute, execute_stream, analyze, prepare and the planning statements of extract_time_range, extract_column_predicates, execute_with_indexes): user SQL reaches the engine only through sql_with_options with DDL, DML and statements disallowed, and only read-only frames are run",
+    "technique": "Verus call-site frame obligations on the extracted QueryEngine entry points that take user SQL (plan_read_only_sql_locked, plan_read_only_sql, the planning step of with_metrics_table, execute, execute_planned, execute_with_indexes and the collect of execute_planned_with_indexes, execute_stream, analyze, prepare and the planning statements of extract_time_range, extract_column_predicates): user SQL reaches the engine only through sql_with_options with DDL, DML and statements disallowed, and only read-only frames are run",
     "frame_scans": [{"file": "src/query/engine.rs", "patterns": [".sql(", ".sql_with_options(", ".execute_logical_plan(", ".state().create_logical_plan("],
-                     "allowed_units": ["plan_read_only_sql"],
-                     "message": "user SQL may reach the embedded engine only through plan_read_only_sql (the one place that plans with DDL / DML / statements disallowed)"}],
+                     "allowed_units": ["plan_read_only_sql_locked"],
+                     "message": "user SQL may reach the embedded engine only through plan_read_only_sql_locked (the one place that plans with DDL / DML / statements disallowed)"}],
     "verus": ["c11_readonly.rs.in"],
     "explanation": "The deciding semantics live inside DataFusion: it is ASSUMED that SessionContext::sql_with_options with DDL, DML and statements disallowed returns an error for every plan that is not a read-only query and performs no write, while SessionContext::sql gives no such guarantee. Under that dependency contract each entry point is proved to leave storage, catalog and session bindings unchanged for every SQL string; a call site that goes back to ctx.sql or relaxes an option fails its frame obligation. HTTP / Flight / Prometheus handlers are covered because they all funnel into these entry points (not checked mechanically).",
     "assumptions": [
         "DataFusion honours SQLOptions (verify_plan rejects DDL, DML incl. COPY, and statements, also under EXPLAIN)",
         "collect / execute_stream of a read-only frame do not write; logical_plan() is a pure accessor",
         "the API layer passes user SQL only to these QueryEngine entry points",
+    ],
+}
+
+PROPS["C10"] = {
+    "level": "other",
+    "technique": "Verus lock-discipline contracts on the extracted QueryEngine::with_metrics_table (the request's chunk set is registered and its statement planned inside one critical section of metrics_table_query_lock, so the planned statement resolved `metrics` to exactly the normalised chunk set asked for, on every exit the lock is released), register_metrics_table_for_chunks and plan_read_only_sql (locked helpers are called only with the lock held, never re-entrantly), plan_read_only_sql_locked, execute_planned, execute_planned_with_indexes (the answer is the collect of the planned statement handed in) and on the two operation closures at the call sites (QueryNode::query_for_tenant, StreamingQueryExecutor::execute: the answer is computed from the planned statement, not by planning the SQL text again); token frame scans close the discipline (the catalog binding is touched, and the locked helpers are called, only inside those units)",
+    "frame_scans": [
+        {"file": "src/query/engine.rs", "patterns": [".deregister_table(", ".register_table("],
+         "allowed_units": ["register_metrics_table_for_chunks_locked", "register_empty_metrics_table"],
+         "allowed_functions": ["register_chunk"],
+         "message": "the session binding of `metrics` is written only by the two registration helpers that run under metrics_table_query_lock (register_chunk binds per-chunk table names, never `metrics`)"},
+        {"file": "src/query/engine.rs", "patterns": [".register_metrics_table_for_chunks_locked(", ".register_empty_metrics_table(", ".plan_read_only_sql_locked("],
+         "allowed_units": ["with_metrics_table", "register_metrics_table_for_chunks", "plan_read_only_sql", "register_metrics_table_for_chunks_locked"],
+         "allowed_functions": ["new"],
+         "message": "the helpers that read or write the `metrics` binding without taking the lock are called only from functions that hold it (QueryEngine::new runs before the engine is shared)"},
+        {"file": "src/query/mod.rs", "patterns": ["engine.execute(", "engine.execute_with_indexes(", "engine.execute_stream(", "engine.execute_planned(", "engine.execute_planned_with_indexes("],
+         "allowed_units": ["query_for_tenant_operation"],
+         "message": "a query node evaluates statements only inside the operation handed to with_metrics_table"},
+        {"file": "src/query/streaming.rs", "patterns": ["engine.execute(", "engine.execute_with_indexes(", "engine.execute_stream(", "engine.execute_planned(", "engine.execute_planned_with_indexes("],
+         "allowed_units": ["streaming_operation"],
+         "message": "the streaming executor evaluates its historical statement only inside the operation handed to with_metrics_table"},
+    ],
+    "verus": ["c10_isolation.rs.in", "c04_registration.rs.in"],
+    "explanation": "The quantifier is over schedules; no schedule is explored. The property is reduced to a lock discipline whose every step is a per-function obligation on the real text, and the step from the discipline to all interleavings is the ASSUMED meaning of the lock: tokio::sync::Mutex gives mutual exclusion, so between this request's registration and its planning (one critical section) no other request changes what `metrics` resolves to; outside critical sections anybody may (acquire and release havoc the binding in the contracts). A planned DataFrame keeps the table provider it resolved (DataFusion: LogicalPlan::TableScan owns its source) - assumed, so execution outside the lock is not affected by later re-registration. Not covered: the pruning inputs (extract_time_range / extract_column_predicates) are planned, under the lock but in an earlier critical section, against whatever table the previous request left registered; this is sound for results only if all chunk files agree on the types of the columns a statement mentions (schema evolution across chunk sets could change a coerced literal and with it the selected chunk set). Defect F25 (the pinned tree planned after releasing the lock: wrong answers under concurrency, demonstrated) is repaired by /repo commit f9c4b52.",
+    "assumptions": [
+        "tokio::sync::Mutex::lock gives mutual exclusion and the guard `_guard` lives to the end of its block (Rust drop order); a second lock() by the holder never returns (modelled as a precondition !held)",
+        "rely: other requests follow the same discipline (same code); while this request holds the lock the `metrics` binding does not change, at any other time it may change arbitrarily",
+        "DataFusion: ctx.sql_with_options resolves table names at planning time and the returned DataFrame keeps the resolved provider; df.collect() scans exactly that provider",
+        "register_metrics_table_for_chunks_locked binds `metrics` to exactly norm(chunk_paths) on success (unit of c04_registration, discharged in the same run; its precondition book_ok is the lock invariant: it is re-established by every successful registration and assumed to survive failed ones, which fail before the catalog is touched unless DataFusion's register_table fails right after deregister_table)",
+        "the closure region units replace `with_metrics_table(&chunk_paths, sql, |p| async { body })` by `let p = df_in; { body }` (declared rewrite); the statement that reaches the closure is the one planned by with_metrics_table (unit with_metrics_table, via its run_operation shim)",
+        "chunk files of one tenant agree on the types of the columns a statement mentions (pruning inputs are planned against a table left by an earlier request)",
+        "QueryEngine::new registers the empty table before the engine value is shared",
     ],
 }
 
